@@ -205,8 +205,8 @@ def closeHandle (o : Oracle) (h : H) (hist : Hist) : Int × Hist :=
     let hh : H × Hist := if th.1.mode == .rw then
         let t := ioTell o th.2
         if t.1 < th.1.filelength then
-          -- psf_ftruncate fails on virtual I/O (EBADF): psf_log_syserr latches SFE_SYSTEM
-          ({ th.1 with filelength := t.1, error := if th.1.error == 0 then E_SYSTEM else th.1.error }, t.2)
+          -- psf_ftruncate on virtual I/O: since 7f90196 it returns -1 without touching a descriptor and without latching SFE_SYSTEM
+          ({ th.1 with filelength := t.1 }, t.2)
         else (th.1, t.2)
       else th
     (0, (writeHeader o hh.1 hh.2 true).2.2)
